@@ -273,3 +273,64 @@ func VerifHarness_C02_EngineWindow() {
 	}
 	vsymReach("C02_engine_window")
 }
+
+// C01-O9: a stateful stage (distinct) between the selector and a line filter.
+// Whether the storage evaluates the line filter itself or leaves it to the
+// engine must not change the result: a filter written after distinct must not
+// act before it.
+func VerifHarness_C01_DistinctThenLineFilter() {
+	q := &verifQuerier{}
+	q.caps.Line = SupportedOps(vsymUint64("lineCaps"))
+	q.applyLine = true
+	// three records: label a from {1, 2}, line contains "foo" or not (symbolic)
+	N := 3
+	aval := make([]string, N)
+	hasFoo := make([]bool, N)
+	for j := 0; j < N; j++ {
+		aval[j] = []string{"1", "2"}[vsymChoice("a", 2)]
+		hasFoo[j] = vsymBool("foo")
+		body := "bar"
+		if hasFoo[j] {
+			body = "foo"
+		}
+		q.recs = append(q.recs, verifRecord(int64(1000+j), body, map[string]string{"a": aval[j]}))
+	}
+	q.refLine = func(f logql.LineFilter, rec logstorage.Record) bool {
+		return verifRefLineMatch(f.Op, rec.Body, f.Value, 0)
+	}
+	stages := []logql.PipelineStage{
+		&logql.DistinctFilter{Labels: []logql.Label{"a"}},
+		&logql.LineFilter{Op: logql.OpEq, Value: "foo", Re: regexp.MustCompile("foo")},
+	}
+	e := verifEngine(q)
+	streams, err := e.evalLogExpr(context.Background(), &logql.LogExpr{Sel: logql.Selector{}, Pipeline: stages},
+		EvalParams{Start: 1, End: 5000, Step: 0, Limit: -1})
+	vsymAssert(err == nil, "the query evaluates")
+	// reference: stages in the order written
+	seen := map[string]bool{}
+	for j := 0; j < N; j++ {
+		want := false
+		if !seen[aval[j]] {
+			seen[aval[j]] = true
+			want = hasFoo[j]
+		}
+		found := 0
+		for _, st := range streams {
+			for _, en := range st.Values {
+				if en.T == uint64(1000+j) {
+					found++
+				}
+			}
+		}
+		if want {
+			vsymAssert(found == 1, "a record that passes the stages in the order written is returned, whatever the back end offloads")
+		} else {
+			if found != 0 && q.caps.Line.Supports(logql.OpEq) {
+				vsymFinding("F39", true, "a line filter written after `distinct` is handed to the storage and so acts BEFORE distinct: with a back end that evaluates `|=` itself, `| distinct a |= \"foo\"` returns a later duplicate whose line matches, without offloading it returns nothing for that value of a")
+				return
+			}
+			vsymAssert(found == 0, "a record dropped by the stages in the order written is not returned, whatever the back end offloads")
+		}
+	}
+	vsymReach("C01_distinct_linefilter")
+}
